@@ -941,6 +941,19 @@ class Server(Node):
 
         return can_renew
 
+    def check_app_affinity_limit(self, app):
+        """Check app affinity limits on the server and every level above.
+
+        Apps can be put on the server directly (eviction, restore), not
+        only on the way down from the buckets above.
+        """
+        node = self
+        while node is not None:
+            if not Node.check_app_affinity_limit(node, app):
+                return False
+            node = node.parent
+        return True
+
     def check_app_lifetime(self, app):
         """Check if the app lease fits until server is rebooted.
         """
